@@ -301,6 +301,12 @@ def run(rep: Report, tier: str) -> None:  # noqa: C901
     from sa.checks.c12 import traversal_on_every_path, unknown_resolution
     traversal_on_every_path(P, rep, "R03.12", {"Aggregation", "RegularAggregation", "Analytic"})
     unknown_resolution(P, rep, "R03.12")
+    # ---- R03.13 group by / group except compare Time_Period identifiers as text: one stored text per period ----
+    rep.rule("R03.13", "every accepted spelling of a Time_Period is stored as the one canonical text (group by / group except compare Time_Period identifiers as text)")
+    from sa import sqlx as _sqlx_g
+    from sa.checks.c19 import period_limits as _pl_g
+    from sa.checks.c21 import spelling_grid as _sg_g
+    _sg_g(rep, "R03.13", {k.lower(): v for k, v in _sqlx_g.load_macros(P).items()}, _pl_g(P))
     rep.assumptions = ["DuckDB's aggregates of the same name implement the VTL aggregate operators (null measure values ignored)",
                        "SQLBuilder.having() conjoins conditions (read from sql_builder.py: _having_conditions.append)"]
 
